@@ -773,57 +773,112 @@ func ruleKeyMatch(c *Ctx) {
 		c.und("key-match", 0, "idempotency.Key.Match not found")
 		return
 	}
-	if len(fd.Body.List) != 1 {
-		c.und("key-match", fd.Pos(), "Match is no longer a single return expression")
-		return
-	}
-	rs, ok := fd.Body.List[0].(*ast.ReturnStmt)
-	if !ok || len(rs.Results) != 1 {
-		c.und("key-match", fd.Pos(), "Match is no longer a single return expression")
+	if fd.Recv == nil || len(fd.Recv.List[0].Names) == 0 || len(fd.Type.Params.List) != 1 || len(fd.Type.Params.List[0].Names) != 1 {
+		c.und("key-match", fd.Pos(), "unexpected signature of Match")
 		return
 	}
 	env := newProvEnv(pk, fd)
-	f := env.condFormula(rs.Results[0], 0)
-	atoms := map[string]bool{}
-	f.atoms(atoms)
-	var names []string
-	for a := range atoms {
-		names = append(names, a)
-	}
-	sort.Strings(names)
 	recv := "param:" + fd.Recv.List[0].Names[0].Name
 	arg := "param:" + fd.Type.Params.List[0].Names[0].Name
 	a1, a2, a3 := "("+recv+" == nil)", "("+arg+" == nil)", "(*"+recv+" == *"+arg+")"
 	a3b := "(*" + arg + " == *" + recv + ")"
-	okAtoms := true
-	for _, n := range names {
-		if n != a1 && n != a2 && n != a3 && n != a3b {
-			okAtoms = false
-		}
-	}
-	if !okAtoms || len(names) != 3 {
-		c.bad("key-match", fd.Pos(), "Match depends on "+strings.Join(names, ", ")+"; the statement allows exactly: receiver nil?, argument nil?, values equal?")
+	pe, peb := "("+recv+" == "+arg+")", "("+arg+" == "+recv+")"
+	// every path through Match, whatever its shape: the path's conditions select the valuations it
+	// serves, its returned expression is evaluated under them
+	g := buildCFG(pk, fd.Body)
+	paths, complete := enumPathsX(g, env.condFormula, nil, nil, 64)
+	if !complete || len(paths) == 0 {
+		c.und("key-match", fd.Pos(), "paths of Match could not be enumerated")
 		return
+	}
+	known := map[string]bool{a1: true, a2: true, a3: true, a3b: true, pe: true, peb: true}
+	for _, p := range paths {
+		var fs []*formula
+		for _, f := range p.Facts {
+			fs = append(fs, f.F)
+		}
+		if p.Ret != nil && len(p.Ret.Results) == 1 {
+			fs = append(fs, env.condFormula(p.Ret.Results[0], 0))
+		}
+		for _, f := range fs {
+			as := map[string]bool{}
+			f.atoms(as)
+			for a := range as {
+				if !known[a] && a != "true" && a != "false" {
+					c.bad("key-match", fd.Pos(), "Match depends on "+a+"; the statement allows exactly: receiver nil?, argument nil?, values equal?")
+					return
+				}
+			}
+		}
 	}
 	bad := ""
 	for m := 0; m < 8; m++ {
-		v := map[string]bool{}
-		for i, n := range names {
-			v[n] = m&(1<<i) != 0
-		}
-		eq := v[a3] || v[a3b]
-		want := !v[a1] && !v[a2] && eq
-		// dereferencing a nil key is not a valuation that can be observed
+		v := map[string]bool{a1: m&1 != 0, a2: m&2 != 0}
+		eq := m&4 != 0
 		if (v[a1] || v[a2]) && eq {
-			continue
+			continue // the values of a nil key cannot be compared
 		}
-		got := f.eval(v) == 1
-		if got != want {
-			bad = fmt.Sprintf("for %v Match yields %v, the statement %v", v, got, want)
+		if !v[a1] && !v[a2] {
+			v[a3], v[a3b] = eq, eq
+			// pointer identity of two present keys is not what Match may depend on: leave it open
+		} else {
+			same := v[a1] && v[a2]
+			v[pe], v[peb] = same, same
+		}
+		want := !v[a1] && !v[a2] && eq
+		v["true"], v["false"] = true, false
+		served := 0
+		for _, p := range paths {
+			sel := true
+			for _, f := range p.Facts {
+				r := f.F.eval(v)
+				if r == -1 || (r == 1) != f.Val {
+					sel = false
+				}
+			}
+			if !sel {
+				continue
+			}
+			served++
+			if p.Ret == nil || len(p.Ret.Results) != 1 {
+				bad = "a path of Match does not return a value"
+				continue
+			}
+			rf := env.condFormula(p.Ret.Results[0], 0)
+			// a value comparison evaluated while a key is nil is a nil dereference — unless the
+			// conjunction's own nil tests (false conjuncts) come first in evaluation order
+			if v[a1] || v[a2] {
+				as := map[string]bool{}
+				rf.atoms(as)
+				if as[a3] || as[a3b] {
+					s := exprString(p.Ret.Results[0])
+					if !(strings.Index(s, "*") > strings.LastIndex(s, "nil")) {
+						bad = "the keys' values are compared on a path where a key may be nil"
+					}
+					// short-circuit: the nil tests decide
+					vv := map[string]bool{}
+					for k, x := range v {
+						vv[k] = x
+					}
+					vv[a3], vv[a3b] = false, false
+					if got := rf.eval(vv) == 1; got != want {
+						bad = fmt.Sprintf("for %v Match yields %v, the statement %v", v, got, want)
+					}
+					continue
+				}
+			}
+			r := rf.eval(v)
+			if r == -1 {
+				bad = fmt.Sprintf("for %v the result of Match depends on something else than the keys' presence and values (%s)", v, rf.String())
+				continue
+			}
+			if got := r == 1; got != want {
+				bad = fmt.Sprintf("for receiver-nil=%v argument-nil=%v values-equal=%v Match yields %v, the statement %v", v[a1], v[a2], eq, got, want)
+			}
+		}
+		if served == 0 {
+			bad = fmt.Sprintf("no path of Match serves receiver-nil=%v argument-nil=%v", v[a1], v[a2])
 		}
 	}
-	// the dereferences must come after the nil tests in evaluation order (&& short-circuit)
-	s := exprString(rs.Results[0])
-	derefFirst := strings.Index(s, "*") >= 0 && strings.Index(s, "*") < strings.LastIndex(s, "nil")
-	c.check(bad == "" && !derefFirst, "key-match", fd.Pos(), "Match ⇔ both keys non-nil and equal; nil tests precede the dereference", "Key.Match no longer means `both keys present and equal`: "+bad)
+	c.check(bad == "", "key-match", fd.Pos(), "Match ⇔ both keys present and equal (every path, every combination of presence and equality)", "Key.Match no longer means `both keys present and equal`: "+bad)
 }
